@@ -349,11 +349,20 @@ fn main() {
                     conn.writer = Some(Box::new(c.try_clone().unwrap()) as Box<dyn Write + Send + Sync>);
                     let conn = Arc::new(RwLock::new(conn));
                     let r = client_call(conn.clone(), t[2], t[3], t[4], args);
-                    if t[4] == "oneway" { std::thread::sleep(std::time::Duration::from_millis(30)); }
+                    // a oneway call reads nothing: whatever the server wrote for it is still in the socket
+                    let mut unread: Vec<u8> = Vec::new();
+                    if t[4] == "oneway" {
+                        let mut probe = c.try_clone().unwrap();
+                        let _ = probe.set_read_timeout(Some(std::time::Duration::from_millis(60)));
+                        let mut b = [0u8; 4096];
+                        loop { match probe.read(&mut b) { Ok(n) if n > 0 => unread.extend_from_slice(&b[..n]), _ => break } }
+                        let _ = probe.set_read_timeout(None);
+                    }
                     drop(conn);
                     let _ = c.shutdown(std::net::Shutdown::Both);
                     let _ = th.join();
-                    let ro = raw_out.lock().unwrap().clone();
+                    let mut ro = raw_out.lock().unwrap().clone();
+                    ro.extend_from_slice(&unread);
                     format!("res={} raw_reply={}", r, hex(&ro))
                 }
                 "raw" => {
